@@ -178,7 +178,15 @@ fn build_scenario(s: &Stream, cuts: &[usize]) -> (Scenario, usize) {
 /// Run the stream under one segmentation; returns what a client can observe
 /// and (for the framing model) the driver's violations.
 fn run_once(s: &Stream, cuts: &[usize], ring_n: bool, keep_log: bool) -> (Observed, Vec<Violation>, crate::driver::Stats, u64, Vec<String>) {
-    let (sc, _total) = build_scenario(s, cuts);
+    run_once_cap(s, cuts, ring_n, keep_log, 0)
+}
+
+/// `read_cap` > 0: the server's reads return at most that many bytes each (ring N).
+fn run_once_cap(s: &Stream, cuts: &[usize], ring_n: bool, keep_log: bool, read_cap: u32) -> (Observed, Vec<Violation>, crate::driver::Stats, u64, Vec<String>) {
+    let (mut sc, _total) = build_scenario(s, cuts);
+    if read_cap > 0 {
+        sc.events.insert(1, Ev::ReadCap { c: 0, n: read_cap });
+    }
     let mut ring_h;
     let mut ring_nn;
     let exec: &mut dyn Exec = if ring_n {
@@ -327,6 +335,21 @@ impl C09 {
                         if let Some(r) = try_cuts(vec![a, b], out, &mut fp) {
                             return Some(r);
                         }
+                    }
+                }
+            }
+            // the server itself reads in small pieces (whatever the delivery looks like)
+            if ring_n {
+                for cap in [1u32, 7, 23, 24, 25, 64] {
+                    let (got, _v, stats, f, _) = run_once_cap(s, &[], true, false, cap);
+                    out.stats.merge(&stats);
+                    fp.u64(f);
+                    out.count("segmentations", 1);
+                    out.count("read_cap_runs", 1);
+                    if let Some(v) = compare(&reference, &got, &[], "N") {
+                        let v = Violation::new("C09", "segmentation-dependent", format!("server reads capped at {} bytes: {}", cap, v.detail));
+                        // the equivalent explicit segmentation: pieces of `cap` bytes
+                        return Some((v, (cap as usize..total).step_by(cap as usize).collect(), true));
                     }
                 }
             }
